@@ -187,7 +187,24 @@ func concBounds(what string, crash bool) func(tier string) map[string]any {
 
 var concAssume = append(append([]string{}, concStubs...), cmdStubs[0], cmdStubs[1], cmdStubs[2], cmdStubs[3], cmdStubs[4])
 
+const bpPkg = libsMod + "/bun/bunpaginate"
+
+func bpRun(fn, nfn, dfn, prefix string, canary []int) HarnessRun {
+	return HarnessRun{Pkg: bpPkg, Dir: "bun/bunpaginate", Mod: "libs", Fn: fn, Shapes: countShapes(bpPkg, nfn), Cfg: cmdCfg, Desc: harnessDesc(bpPkg, dfn, prefix), CanaryShapes: canary}
+}
+
 var specs = map[string]*CheckSpec{
+	"C17": {
+		ID: "C17", Patterns: []string{bpPkg, lsPkg},
+		Runs: []HarnessRun{bpRun("ZZ_C17Col", "ZZ_C17ColN", "ZZ_C17ColDesc", "column pagination:", []int{5, 12}), bpRun("ZZ_C17Off", "ZZ_C17OffN", "ZZ_C17OffDesc", "offset pagination:", []int{3}),
+			{Pkg: lsPkg, Dir: "internal/storage/ledgerstore", Mod: "ledger", Fn: "ZZ_C17Cursor", Shapes: countShapes(lsPkg, "ZZ_C17CursorN"), Cfg: cmdCfg, Desc: harnessDesc(lsPkg, "ZZ_C17CursorDesc", "cursor round trip:"), CanaryShapes: []int{0}}},
+		Bounds: func(tier string) map[string]any {
+			return map[string]any{"column_pagination": "collections of 0..4 rows with arbitrary increasing ids, every page size 1..n+1, both orders: full forward traversal and previous from every page", "offset_pagination": "collections of 0..4 rows; offset (< 2^40) and page size (1..MaxPageSize) are arbitrary 64-bit values: one-step law", "cursor": "every cursor handed out is decoded again through UnmarshalCursor (base64 + JSON model); cursors of the transactions / accounts / logs listings with and without a filter round-trip and build the same WHERE clause", "outside": "bun's SQL generation and PostgreSQL's ordering (the table is an abstract ordered relation; natively a fake database/sql driver)"}
+		},
+		Assumptions: []string{"*bun.SelectQuery is an abstract ordered table: Where/OrderExpr/Offset/Limit/Scan have their SQL meaning; negative LIMIT/OFFSET is an error", "row ids are distinct (strictly increasing)", "reflect is answered from go/types", "encoding/json and base64 modelled over ropes"},
+		Encoded:     []string{"bunpaginate.UsingColumn", "bunpaginate.UsingOffset", "bunpaginate.(*ColumnPaginatedQuery).EncodeAsCursor", "bunpaginate.(*OffsetPaginatedQuery).EncodeAsCursor", "bunpaginate.EncodeCursor", "bunpaginate.UnmarshalCursor", "bunpaginate.Order.Reverse", "bunpaginate.(*BigInt).MarshalJSON/UnmarshalJSON", "ledgerstore.(*PaginatedQueryOptions).UnmarshalJSON", "query.set/keyValue/not.MarshalJSON", "query.ParseJSON"},
+		Rule:        "per (collection size, page size, order): ids symbolic; the traversal's page boundaries are decided by the solver from the ordering assumptions; per collection size: offset and page size symbolic",
+	},
 	"C02": {
 		ID: "C02", Patterns: []string{cmdPkg}, NeedHelper: true, Instrument: true,
 		Runs:        []HarnessRun{concRun("ZZ_C02", "ZZ_C02N", "ZZ_C02Desc", "", 1, 2, false, nil, []int{0, 2})},
